@@ -332,6 +332,10 @@ def main(argv):
     run.trust('z3 5.1'); run.trust('S-ir denotation liftvc/den.py; independent concrete interpreter specs/irsem.py for replays')
     run.assume('bound memory cells are addressed by a free symbol (p32); overlapping cells are the subject of C07')
     run.assume('fresh node objects per evaluation (sharing/memo effects are the subject of C12)')
+    # SMT-A: the linear constant evaluators eval_op_* verified from their AST for all operand values
+    from checks import C06smt
+    C06smt.ob_smt(run)
+    run.notes.append('eval_op_plus/mult/minus/and/or/xor/not/eq/inf/mullo/mulhi: proved for all operand values (SMT-A, callee contracts of C14); shifts, rotates, division, bit scans: shape-bounded SMT only')
     return run.finish()
 
 if __name__ == '__main__':
